@@ -746,7 +746,7 @@ func genStubFile(ps *pkgSyntax, cs []*Contract) (string, error) {
 			c.StubName = stubIdent("Lemma", strings.TrimPrefix(c.Target, "lemma:"))
 			fmt.Fprintf(&body, "\n//line %s:%d\nfunc %s(%s) {\n", c.File, c.Line, c.StubName, c.ParamText)
 			for _, cl := range c.Clauses {
-				writeClause(&body, cl)
+				writeClause(&body, cl, filepath.Base(c.File))
 			}
 			for _, l := range c.Body {
 				body.WriteString("\t" + rewriteImplies(l) + "\n")
@@ -776,7 +776,7 @@ func genStubFile(ps *pkgSyntax, cs []*Contract) (string, error) {
 				body.WriteString("\tverifPost()\n")
 				post = true
 			}
-			writeClause(&body, cl)
+			writeClause(&body, cl, filepath.Base(c.File))
 		}
 		if !post {
 			body.WriteString("\tverifPost()\n")
@@ -808,9 +808,9 @@ func genStubFile(ps *pkgSyntax, cs []*Contract) (string, error) {
 	return out.String(), nil
 }
 
-func writeClause(b *strings.Builder, cl Clause) {
+func writeClause(b *strings.Builder, cl Clause, file string) {
 	t := rewriteImplies(cl.Text)
-	fmt.Fprintf(b, "//line %s:%d\n", "contracts_verif.go", cl.Line)
+	fmt.Fprintf(b, "//line %s:%d\n", file, cl.Line)
 	switch cl.Kind {
 	case "requires":
 		fmt.Fprintf(b, "\tverifRequires(%s)\n", t)
